@@ -198,6 +198,38 @@ theorem renumber_bijective (x : RoutineSet) (h : WF' x) :
 list lookup `jumpIdx` is the dict lookup -/
 theorem jump_table_wellformed : (Dict.keys Gen.opsWithJump).Nodup := by decide
 
+/-! ### routine ids (repair "the SsbScript compiler crashed on negative and far too large routine ids") -/
+
+/-- `def N` / `def N for …` with `N < 0` or `N > len(routine_infos)` raises SsbCompilerError (for `coro` the checked id
+is the previous id + 1) -/
+theorem routine_id_checked {ι : Type} (r : RState ι) (id : Int) (items : List ι)
+    (h : id < 0 ∨ id > (r.infos.length : Int)) :
+    exitDef r (.simple id) items = .error .ssbCompilerError ∧
+    ∀ w t, exitDef r (.forTarget id w t) items = .error .ssbCompilerError := by
+  have he : enlarge { r with active := id } = .error .ssbCompilerError := enlarge_rejects _ h
+  refine ⟨?_, fun w t => ?_⟩ <;> simp only [exitDef, he]
+
+/-- consequently no routine slot stays unassigned: every successful compile is a routine set (the `gap` outcome of
+`CompileOut.toSet` is unreachable from `compileRaw`) -/
+theorem compile_result_is_routine_set (ast : List SRoutine) (o : CompileOut) (h : compileRaw ast = .ok o) :
+    ∃ y, o.toSet = .ok y := compileRaw_toSet ast o h
+
+/-- `def -1 { a(); }`, `def 1 { a(); }` (gap at 0), `def 0 {…} def 2 {…}` (gap at 1) -/
+theorem routine_id_rejected_examples :
+    compileRaw [⟨.simple (-1), some [.op "a" []]⟩] = .error .ssbCompilerError ∧
+    compileRaw [⟨.simple 1, some [.op "a" []]⟩] = .error .ssbCompilerError ∧
+    compileRaw [⟨.simple 0, some [.op "a" []]⟩, ⟨.forTarget 2 "actor" (.int 3), some [.op "b" []]⟩] = .error .ssbCompilerError := by
+  decide +kernel
+
+/-- Outside the quantifier of C07 (decompiler output never repeats an id), recorded because the model reproduces the
+implementation exactly: a routine id defined twice keeps only the second body, but the op counter and the label
+table keep running — `def 0 { @a; foo(); } def 0 { Jump(@a); }` compiles to the single op `Jump[0]` at offset 1, whose
+target (offset 0) is not an op of the result. -/
+theorem repeated_routine_id_example :
+    compileRaw [⟨.simple 0, some [.label "a", .op "foo" []]⟩, ⟨.simple 0, some [.op "Jump" [.jump "a"]]⟩] =
+      .ok ⟨[some ⟨.generic, 0, none⟩], [[⟨1, "Jump", [.int 0]⟩]], [none]⟩ := by
+  decide +kernel
+
 /-! ### why the clauses of `WF'` are there: concrete witnesses -/
 
 /-- jump parameter not last: `Branch(1, 2, →0, 9)` comes back as `Branch(1, 2, 9, →0)` -/
